@@ -34,8 +34,29 @@ func genFrom(r *kit.Rand, names []string) fromDef {
 	return f
 }
 
-func genTask(r *kit.Rand, id string, names []string) *taskDef {
+func genTask(r *kit.Rand, id string, names []string, focus bool) *taskDef {
 	d := &taskDef{id: id}
+	if focus {
+		// crowded keys: every task declares d1.autogen, so several tasks share exact and empty-measurement keys
+		d.dbrps = [][2]string{{"d1", "autogen"}}
+		if r.Chance(1, 3) {
+			d.dbrps = append(d.dbrps, [2]string{kit.Pick(r, genDBs), kit.Pick(r, genRPs)})
+		}
+		m := kit.Pick(r, names)
+		switch r.Intn(6) {
+		case 0, 1:
+			d.froms = []fromDef{{name: m, wh: -1}}
+		case 2:
+			d.froms = []fromDef{{wh: -1}}
+		case 3:
+			d.froms = []fromDef{{name: m, wh: -1}, {wh: -1}}
+		case 4:
+			d.froms = []fromDef{{wh: r.Intn(len(preds))}, {name: m, wh: -1}}
+		default:
+			d.froms = []fromDef{{name: m, wh: -1}, {name: kit.Pick(r, names), wh: r.Intn(len(preds))}}
+		}
+		return d
+	}
 	// dbrps
 	switch k := r.Intn(100); {
 	case k < 4:
@@ -99,12 +120,19 @@ func genCase(r *kit.Rand, idx int, tier string) []string {
 	}
 	ops = append(ops, fmt.Sprintf("cfg %s %s", kit.Esc(defRP), mode))
 	names := genNames[:r.Range(2, len(genNames))]
+	focus := r.Chance(2, 5)
+	if focus {
+		names = genNames[:r.Range(1, 2)]
+	}
 	wnames := append([]string{}, names...)
 	wnames = append(wnames, "other")
 	if mode == "api" && r.Chance(1, 4) {
 		wnames = append(wnames, "") // a point without a measurement name (possible through the Go API only)
 	}
 	nTasks := r.Range(1, 4)
+	if focus {
+		nTasks = r.Range(3, 4)
+	}
 	ids := genIDs[:nTasks]
 	running := map[string]*taskDef{}
 	defs := map[string]*taskDef{}
@@ -116,7 +144,7 @@ func genCase(r *kit.Rand, idx int, tier string) []string {
 	doStart := func(id string) {
 		d := defs[id]
 		if d == nil || r.Chance(1, 3) {
-			d = genTask(r, id, names)
+			d = genTask(r, id, names, focus)
 			defs[id] = d
 		}
 		ops = append(ops, startLine(d))
@@ -133,16 +161,32 @@ func genCase(r *kit.Rand, idx int, tier string) []string {
 		if r.Chance(1, 12) {
 			rp = "r3"
 		}
+		if focus && r.Chance(2, 3) {
+			db, rp = "d1", "autogen"
+			if defRP == "autogen" && r.Chance(1, 3) {
+				rp = ""
+			}
+		}
 		var toks []string
 		for i := 0; i < n; i++ {
 			pid++
 			p := &point{id: pid, name: kit.Pick(r, wnames), v: int64(r.Intn(10)), host: kit.Pick(r, []string{"a", "b"})}
+			if p.name == "" {
+				p.host = "" // see parsePoint
+			}
 			p.pass = passOf(p)
 			toks = append(toks, pointTok(p))
 		}
 		ops = append(ops, fmt.Sprintf("write %s %s %s", kit.Esc(db), kit.Esc(rp), strings.Join(toks, ",")))
 	}
 	doStart(ids[0])
+	if focus {
+		for _, id := range ids[1:] {
+			if r.Chance(3, 4) {
+				doStart(id)
+			}
+		}
+	}
 	for i := 0; i < nOps; i++ {
 		switch k := r.Intn(100); {
 		case k < 58:
